@@ -147,18 +147,8 @@ def xdma_text(n, kern):
     )
 
 
-_XDMA = []
-
-
 def ensure_xdma():
-    if not _XDMA:
-        from snaxc.accelerators.snax_xdma import SNAXXDMAAccelerator
-
-        try:
-            common.ctx().register_accelerator("snax_xdma", lambda: SNAXXDMAAccelerator())
-        except Exception:
-            pass
-        _XDMA.append(1)
+    common.ensure_xdma()
 
 
 def tsl(dims, offset=0):
